@@ -65,7 +65,7 @@ pub fn run_script(o: &RunOpts) -> Result<usize, String> {
         let mut cmd = if o.strace {
             // syscall level evidence for C03.sync_calls: which file got fsync/fdatasync during which call
             let mut c = Command::new("strace");
-            c.args(["-f", "-y", "-e", "trace=fsync,fdatasync,access", "-o", &st_file]).arg(&exe);
+            c.args(["-f", "-y", "-e", "trace=fsync,fdatasync,access,lseek,write", "-o", &st_file]).arg(&exe);
             c
         } else {
             Command::new(&exe)
@@ -184,6 +184,13 @@ fn attach_syscalls(trace_path: &str) -> Result<(), String> {
     let dir = std::path::Path::new(trace_path).parent().unwrap_or(std::path::Path::new("."));
     let base = std::path::Path::new(trace_path).file_name().unwrap().to_string_lossy().to_string();
     let mut sys: HashMap<i64, Vec<Value>> = HashMap::new();
+    // writes of the flush, as (file, offset, length): binding of AbyBuf's flush order to the code
+    let mut wr: HashMap<i64, Vec<Value>> = HashMap::new();
+    let mut pos: HashMap<String, u64> = HashMap::new();
+    let file_of = |arg: &str| -> &'static str {
+        let head = arg.split(',').next().unwrap_or("");
+        if head.contains(".val>") { "val" } else if head.contains(".key>") { "key" } else if head.contains(".htx>") { "htx" } else { "other" }
+    };
     for e in std::fs::read_dir(dir).map_err(|e| format!("{e}"))?.flatten() {
         let f = e.file_name().to_string_lossy().to_string();
         if !f.starts_with(&format!("{base}.strace.")) { continue; }
@@ -197,6 +204,26 @@ fn attach_syscalls(trace_path: &str) -> Result<(), String> {
                 cur = if begin { num.parse().ok() } else { None };
                 if let Some(i) = cur { sys.entry(i).or_default(); }
             } else if let Some(i) = cur {
+                if let Some(p) = line.find(" lseek(") {
+                    let arg = &line[p + 7..];
+                    let f = file_of(arg);
+                    if f != "other" && arg.contains("SEEK_SET") {
+                        if let Some(off) = arg.split(',').nth(1).and_then(|x| x.trim().parse::<u64>().ok()) {
+                            pos.insert(arg.split(',').next().unwrap_or("").to_string(), off);
+                        }
+                    }
+                } else if let Some(p) = line.find(" write(") {
+                    let arg = &line[p + 7..];
+                    let f = file_of(arg);
+                    if f != "other" {
+                        let key = arg.split(',').next().unwrap_or("").to_string();
+                        let n = line.rsplit("= ").next().and_then(|x| x.trim().parse::<u64>().ok()).unwrap_or(0);
+                        let off = *pos.get(&key).unwrap_or(&0);
+                        let v = wr.entry(i).or_default();
+                        if v.len() < 400 { v.push(json!([f, off, n])); }
+                        pos.insert(key, off + n);
+                    }
+                }
                 for (call, op) in [("fsync(", "sync_all"), ("fdatasync(", "sync_data")] {
                     if let Some(p) = line.find(call) {
                         if line[..p].ends_with(' ') || p == 0 || line[..p].ends_with('>') {
@@ -216,7 +243,10 @@ fn attach_syscalls(trace_path: &str) -> Result<(), String> {
         let mut v: Value = serde_json::from_str(l).map_err(|e| format!("{e}"))?;
         if let Some(i) = v.get("i").and_then(|i| i.as_i64()) {
             if let Some(s) = sys.get(&i) {
-                if v.get("io").is_some() { v["sys"] = Value::Array(s.clone()); }
+                if v.get("io").is_some() {
+                    v["sys"] = Value::Array(s.clone());
+                    v["wr"] = Value::Array(wr.get(&i).cloned().unwrap_or_default());
+                }
             }
         }
         out.push_str(&v.to_string());
